@@ -42,6 +42,13 @@ def handle : List String → String
       | some r => toHex r
       | none => "panic:slice-bounds"
     | _, _, _ => "bad-op"
+  | ["substringopen", h, lo] =>
+    match parseHex h, lo.toInt? with
+    | some s, some lo =>
+      match substringOpen s lo with
+      | some r => toHex r
+      | none => "panic:slice-bounds"
+    | _, _ => "bad-op"
   | ["copy", n, h] =>
     match n.toNat?, parseHex h with
     | some n, some s => let r := copyString n s; s!"{r.1} {toHex r.2}"
